@@ -195,20 +195,17 @@ Proof.
   { intros Hl Hp. apply andb_false_iff in Eal. destruct Eal as [Eal|Eal].
     - apply atLimit_false in Eal. lia.
     - apply live_false in Eal. contradiction. }
+  assert (Hcpu : evolves c (set_cpu c cpuUsed)) by (apply set_cpu_evolves; [assumption|apply u64_inr|exact Hlim]).
   destruct (trackTime c && (nextThr c <=? cpuUsed)).
-  - set (c0 := set_thr c _).
-    assert (H0 : evolves c c0) by (apply set_thr_evolves; assumption).
+  - set (c1 := set_cpu c cpuUsed) in *.
+    assert (Hc1 : ctx_ok c1) by (eapply evolves_ok; eauto).
+    set (c0 := set_thr c1 _).
+    assert (H0 : evolves c1 c0) by (apply set_thr_evolves; assumption).
     assert (Hc0 : ctx_ok c0) by (eapply evolves_ok; eauto).
     destruct (updateTimeUsed_evolves now c0 Hc0) as (E2 & _ & _ & Hst).
     destruct (updateTimeUsed now c0) as [c2 t] eqn:Eu. cbn [fst snd] in *.
-    assert (Hc2 : ctx_ok c2) by (eapply evolves_ok; eauto).
-    destruct t; cbn [r1_ctx].
-    + eapply evolves_trans; eauto.
-    + eapply evolves_trans; [exact H0|]. eapply evolves_trans; [exact E2|].
-      apply set_cpu_evolves; [assumption|apply u64_inr|].
-      destruct E2 as [(h & _) _ _ _ _]. rewrite h. cbn.
-      rewrite (Hst eq_refl). cbn. exact Hlim.
-  - cbn [r1_ctx]. apply set_cpu_evolves; [assumption|apply u64_inr|exact Hlim].
+    destruct t; cbn [r1_ctx]; (eapply evolves_trans; [exact Hcpu|]; eapply evolves_trans; [exact H0|exact E2]).
+  - cbn [r1_ctx]. exact Hcpu.
 Qed.
 
 Lemma requireMem_evolves amt c :
@@ -431,11 +428,11 @@ Proof.
     assert (Hsucc : forall p', evolves p p' -> Inv (mkMgr p' rest)).
     { intros p' E. split; [eapply evolves_ok; eauto|]. split; [exact Hrest|].
       cbn. eapply chain_child_evolves; eauto. }
-    pose proof (requireCPU_evolves now (cpu (used c)) p Hp) as E1.
-    destruct (requireCPU now (cpu (used c)) p) as [p1|p1 t1|p1] eqn:R1; cbn [r1_ctx] in E1.
+    pose proof (requireMem_evolves (mem (used c)) p Hp) as E1.
+    destruct (requireMem (mem (used c)) p) as [p1|p1 t1|p1] eqn:R1; cbn [r1_ctx] in E1.
     + assert (Hp1 : ctx_ok p1) by (eapply evolves_ok; eauto).
-      pose proof (requireMem_evolves (mem (used c)) p1 Hp1) as E2.
-      destruct (requireMem (mem (used c)) p1) as [p2|p2 t2|p2] eqn:R2; cbn [r1_ctx] in E2.
+      pose proof (requireCPU_evolves now (cpu (used c)) p1 Hp1) as E2.
+      destruct (requireCPU now (cpu (used c)) p1) as [p2|p2 t2|p2] eqn:R2; cbn [r1_ctx] in E2.
       * assert (E12 : evolves p p2) by (eapply evolves_trans; eauto).
         assert (Hp2 : ctx_ok p2) by (eapply evolves_ok; eauto).
         destruct (trackTime p2).
@@ -444,9 +441,9 @@ Proof.
            destruct t; cbn [mres_mgr]; apply Hsucc; eapply evolves_trans; eauto.
         -- cbn [mres_mgr]. apply Hsucc. exact E12.
       * cbn [mres_mgr]. apply Hsucc. eapply evolves_trans; eauto.
-      * exfalso. eapply requireMem_nopanic; eauto.
+      * exfalso. eapply requireCPU_nopanic; eauto.
     + cbn [mres_mgr]. apply Hsucc. exact E1.
-    + exfalso. eapply requireCPU_nopanic; eauto.
+    + exfalso. eapply requireMem_nopanic; eauto.
   - apply lift_inv; [exact HI|apply requireCPU_evolves; apply HI].
   - apply lift_inv; [exact HI|apply requireMem_evolves; apply HI].
   - apply lift_inv; [exact HI|apply releaseMem_evolves; [apply HI|exact Ho]].
@@ -570,39 +567,40 @@ Proof.
   { intros Hh. destruct (lk_mem _ _ Hl Hlp Hh) as [L1 L2]. specialize (Wm L1). lia. }
   destruct (ok_hard _ Hp) as ((Hh1 & Hh2) & (Hh3 & Hh4) & _).
   unfold pop. cbn [cur parents].
-  (* requireCPU on the parent *)
-  assert (R1 : exists p1, requireCPU now (cpu (used c)) p = ROk p1 /\ st p1 = Live /\ same_frame p p1 /\
-            hard_stop p1 = false /\ mem (used p1) = mem (used p) /\
-            cpu (used p1) = (if trackCpu p then u64 (cpu (used p) + cpu (used c)) else cpu (used p))).
-  { unfold requireCPU. rewrite Hhs, Htt. cbn [andb negb].
-    destruct (trackCpu p) eqn:Etc; cbn [negb].
-    - destruct (atLimit _ _ && live p) eqn:Eal.
-      + exfalso. apply andb_true_iff in Eal. destruct Eal as [Eal _]. apply atLimit_true in Eal.
-        destruct Eal as [Eh Ele]. specialize (Scpu Eh).
-        rewrite u64_add_small in Ele; lia.
-      + eexists. split; [reflexivity|]. cbn. unfold same_frame; cbn. intuition.
-    - eexists. split; [reflexivity|]. unfold same_frame. intuition. }
-  destruct R1 as (p1 & -> & Hl1 & Hf1 & Hhs1 & Hm1 & Hc1).
-  assert (R2 : exists p2, requireMem (mem (used c)) p1 = ROk p2 /\ st p2 = Live /\ same_frame p1 p2 /\
-            cpu (used p2) = cpu (used p1) /\
-            mem (used p2) = (if trackMem p then u64 (mem (used p) + mem (used c)) else mem (used p))).
-  { destruct Hf1 as (fh & fs & ff & ftc & ftm & ftt).
-    unfold requireMem. rewrite Hhs1, ftm. cbn [andb].
+  (* requireMem on the parent comes first ... *)
+  assert (R1 : exists p1, requireMem (mem (used c)) p = ROk p1 /\ st p1 = Live /\ same_frame p p1 /\
+            hard_stop p1 = false /\ cpu (used p1) = cpu (used p) /\ nextThr p1 = nextThr p /\
+            mem (used p1) = (if trackMem p then u64 (mem (used p) + mem (used c)) else mem (used p))).
+  { unfold requireMem. rewrite Hhs. cbn [andb].
     destruct (trackMem p) eqn:Etm; cbn [negb].
-    - rewrite Hm1, fh. destruct (atLimit _ _ && live p1) eqn:Eal.
+    - destruct (atLimit _ _ && live p) eqn:Eal.
       + exfalso. apply andb_true_iff in Eal. destruct Eal as [Eal _]. apply atLimit_true in Eal.
         destruct Eal as [Eh Ele]. specialize (Smem Eh).
         rewrite u64_add_small in Ele; lia.
       + eexists. split; [reflexivity|]. cbn. unfold same_frame; cbn. intuition.
     - eexists. split; [reflexivity|]. unfold same_frame. intuition. }
-  destruct R2 as (p2 & -> & Hl2 & Hf2 & Hc2 & Hm2).
+  destruct R1 as (p1 & -> & Hl1 & Hf1 & Hhs1 & Hc1 & Hthr1 & Hm1).
+  (* ... then requireCPU *)
+  assert (R2 : exists p2, requireCPU now (cpu (used c)) p1 = ROk p2 /\ st p2 = Live /\ same_frame p1 p2 /\
+            mem (used p2) = mem (used p1) /\
+            cpu (used p2) = (if trackCpu p then u64 (cpu (used p) + cpu (used c)) else cpu (used p))).
+  { destruct Hf1 as (fh & fs & ff & ftc & ftm & ftt).
+    unfold requireCPU. rewrite Hhs1, ftt, Htt, ftc. cbn [andb].
+    destruct (trackCpu p) eqn:Etc; cbn [negb].
+    - rewrite Hc1, fh. destruct (atLimit _ _ && live p1) eqn:Eal.
+      + exfalso. apply andb_true_iff in Eal. destruct Eal as [Eal _]. apply atLimit_true in Eal.
+        destruct Eal as [Eh Ele]. specialize (Scpu Eh).
+        rewrite u64_add_small in Ele; lia.
+      + eexists. split; [reflexivity|]. cbn. unfold same_frame; cbn. intuition.
+    - eexists. split; [reflexivity|]. unfold same_frame. intuition. }
+  destruct R2 as (p2 & -> & Hl2 & Hf2 & Hm2 & Hc2).
   assert (Hf : same_frame p p2).
   { destruct Hf1 as (a1 & a2 & a3 & a4 & a5 & a6). destruct Hf2 as (b1 & b2 & b3 & b4 & b5 & b6).
     unfold same_frame. rewrite b1, b2, b3, b4, b5, b6. intuition. }
   destruct Hf as (g1 & g2 & g3 & g4 & g5 & g6) eqn:Hfe.
   rewrite g6, Htt.
   exists p2. split; [reflexivity|]. split; [exact Hl2|]. split; [unfold same_frame; intuition|].
-  rewrite Hc2, Hc1, Hm2. split; [reflexivity|]. split; [reflexivity|]. split.
+  rewrite Hc2, Hm2, Hm1. split; [reflexivity|]. split; [reflexivity|]. split.
   - intros Hh. rewrite (ok_tc _ Hp Hh). apply u64_add_small; lia.
   - intros Hh. rewrite (ok_tm _ Hp Hh). apply u64_add_small; lia.
 Qed.
@@ -660,9 +658,10 @@ Proof.
   assert (Hlv : live c = true) by (apply live_true; exact Hl). rewrite Hlv, andb_true_r.
   destruct (atLimit _ _) eqn:Eal; [discriminate|]. apply atLimit_false in Eal.
   destruct (trackTime c && _).
-  - destruct (updateTimeUsed_evolves now (set_thr c (u64 (cpu (used c) + amt + 10000)))) as (_ & _ & _ & _).
-    { destruct Hc as [A B C D E F G H I J]; constructor; cbn; auto. }
-    destruct (updateTimeUsed _ _) as [c2 [|]]; [discriminate|].
+  - set (c0 := set_thr (set_cpu c (cpu (used c) + amt)) _).
+    assert (Hcpu0 : cpu (used c0) = cpu (used c) + amt) by reflexivity.
+    unfold updateTimeUsed.
+    match goal with |- context [if ?b then _ else _] => destruct b end; [discriminate|].
     intros H; inversion H; subst; cbn. lia.
   - intros H; inversion H; subst; cbn. lia.
 Qed.
@@ -796,10 +795,10 @@ Theorem pop_always_pops now c p rest :
   parents (mres_mgr (pop now (mkMgr c (p :: rest)))) = rest.
 Proof.
   unfold pop. cbn [parents cur].
-  destruct (requireCPU now (cpu (used c)) p) as [p1|p1 t1|p1]; cbn [mres_mgr parents]; try reflexivity.
-  destruct (requireMem (mem (used c)) p1) as [p2|p2 t2|p2]; cbn [mres_mgr parents]; try reflexivity.
-  destruct (trackTime p2); [|reflexivity].
-  destruct (updateTimeUsed now p2) as [p3 t]. destruct t; reflexivity.
+  destruct (requireMem (mem (used c)) p) as [p1|p1 t1|p1]; cbn [mres_mgr parents]; try reflexivity.
+  destruct (requireCPU now (cpu (used c)) p1) as [p2|p2 t2|p2]; cbn [mres_mgr parents]; try reflexivity.
+  destruct (trackTime p2); [|cbn; reflexivity].
+  destruct (updateTimeUsed now p2) as [p3 t]. destruct t; cbn; reflexivity.
 Qed.
 
 (* ---- the clock is looked at often enough ----
@@ -859,4 +858,48 @@ Proof.
     intros H; inversion H; subst; clear H. unfold thr_ok. cbn.
     pose proof (u64_le_self (cpu (used c) + amt + 10000) ltac:(lia)). lia.
   - intros H; inversion H; subst; clear H. unfold thr_ok in *. cbn. apply Z.leb_gt in E. lia.
+Qed.
+
+(* ---- a termination by the time limit does not lose the charge ----
+   requireCPU records the CPU before it looks at the clock, and PopContext charges the memory before the CPU (the
+   charge that can look at the clock): when the parent is terminated by its time limit while it absorbs what a child
+   used, its counters hold everything the child used, so its own parent is charged with it in turn.  (Before the
+   repair "fix: what a child used is charged in full even when the charge terminates the parent by its time limit"
+   the CPU of the request and the child's memory were dropped: a context with a CPU limit could do unbounded work
+   inside nested time-limited contexts that kept dying.) *)
+Theorem requireCPU_time_kill_keeps_cpu now amt c c' l :
+  requireCPU now amt c = RTerm c' (TTime l) ->
+  cpu (used c') = u64 (cpu (used c) + amt) /\ mem (used c') = mem (used c).
+Proof.
+  unfold requireCPU.
+  destruct (negb (trackCpu c)); [discriminate|].
+  destruct (hard_stop c && live c); [discriminate|].
+  destruct (atLimit _ _ && live c); [discriminate|].
+  destruct (trackTime c && _); [|discriminate].
+  unfold updateTimeUsed.
+  match goal with |- context [if ?b then _ else _] => destruct b end; [|discriminate].
+  intros H; inversion H; subst; clear H. cbn. split; reflexivity.
+Qed.
+
+Theorem pop_time_kill_keeps_charge now c p rest p' l :
+  pop now (mkMgr c (p :: rest)) = MTerm (mkMgr p' rest) (TTime l) ->
+  (exists p1, requireMem (mem (used c)) p = ROk p1 /\
+     ((cpu (used p') = u64 (cpu (used p1) + cpu (used c)) /\ mem (used p') = mem (used p1)) \/
+      (exists p2, requireCPU now (cpu (used c)) p1 = ROk p2 /\ cpu (used p') = cpu (used p2) /\ mem (used p') = mem (used p2)))).
+Proof.
+  unfold pop. cbn [parents cur].
+  destruct (requireMem (mem (used c)) p) as [p1|p1 t1|p1] eqn:R1.
+  - destruct (requireCPU now (cpu (used c)) p1) as [p2|p2 t2|p2] eqn:R2.
+    + destruct (trackTime p2); [|discriminate].
+      unfold updateTimeUsed.
+      match goal with |- context [if ?b then _ else _] => destruct b end; [|discriminate].
+      intros H; inversion H; subst; clear H. exists p1. split; [reflexivity|]. right. exists p2. cbn. auto.
+    + intros H; inversion H; subst; clear H. exists p1. split; [reflexivity|]. left.
+      exact (requireCPU_time_kill_keeps_cpu _ _ _ _ _ R2).
+    + discriminate.
+  - intros H; inversion H; subst; clear H. exfalso.
+    revert R1. unfold requireMem. destruct (negb (trackMem p)); [discriminate|].
+    destruct (hard_stop p && live p); [intros H; inversion H|].
+    destruct (atLimit _ _ && live p); [intros H; inversion H|discriminate].
+  - discriminate.
 Qed.
